@@ -47,7 +47,8 @@ def _call(c, return_samples=True, via_object=False):
     if c.get('reuse') and isinstance(sig, np.ndarray) and sig.flags.writeable:
         return implutil.reuse_buffer(lambda b: implutil.quiet(compute_features, b, fs, tuple(c['f_range']), center_extrema=c['center'], burst_method=c['method'],
                                                                burst_kwargs=bk, threshold_kwargs=th, find_extrema_kwargs=fek, return_samples=return_samples), sig)
-    return implutil.quiet(compute_features, sig, fs, (tuple(c['f_range']) if not c.get('npopt') else [np.float64(v) for v in c['f_range']]), center_extrema=c['center'], burst_method=c['method'],
+    # (three cases in ten run inside a strict floating-point error state of the caller: np.seterr(all='raise'))
+    return (implutil.strict_env if c.get('strict') else implutil.quiet)(compute_features, sig, fs, (tuple(c['f_range']) if not c.get('npopt') else [np.float64(v) for v in c['f_range']]), center_extrema=c['center'], burst_method=c['method'],
                           burst_kwargs=bk, threshold_kwargs=th, find_extrema_kwargs=fek, return_samples=return_samples)
 
 def corpus(ctx):
@@ -87,7 +88,7 @@ def generate(ctx):
                           boundary=(None if rng.random() < 0.4 else int(rng.choice([0, 1, 5, 25, 60]))),
                           pad=(None if rng.random() < 0.7 else bool(rng.integers(2))),
                           center=str(rng.choice(['peak', 'trough'])), method=method, bk=bk, th=th, family=s['family'],
-                          pres=implutil.pick_presentation(rng), npopt=bool(rng.random() < 0.25), reuse=bool(rng.random() < 0.25)))
+                          pres=implutil.pick_presentation(rng), npopt=bool(rng.random() < 0.25), reuse=bool(rng.random() < 0.25), strict=bool(rng.random() < 0.3)))
     return cases
 
 def evaluate(ctx, cases):
